@@ -91,7 +91,10 @@ def apply(real, ref, ev):
     kind = ev[0]
     if kind == "init":
         s, q = make_batch(ev[1], ref.next_id)
+        s0, q0 = s.tobytes(), q.tobytes()
         real.add_initial_samples(s, q)
+        if s.tobytes() != s0 or q.tobytes() != q0:
+            raise AssertionError("the batch (samples or log_q) passed to the store was modified by the call")
         ref.init(ev[1])
     elif kind == "thr":
         real.update_log_likelihood_threshold(ev[1])
@@ -100,7 +103,10 @@ def apply(real, ref, ev):
         return real.remove_samples(), ref.remove()
     elif kind == "add":
         s, q = make_batch(ev[1], ref.next_id)
+        s0, q0 = s.tobytes(), q.tobytes()
         real.add_samples(s, q)
+        if s.tobytes() != s0 or q.tobytes() != q0:
+            raise AssertionError("the batch (samples or log_q) passed to the store was modified by the call")
         ref.add(ev[1])
     elif kind == "fin":
         # state.update_evidence needs logW etc; not part of this property
